@@ -26,7 +26,9 @@ def run(rep, tier, seed, replay):
         op = r["event"].get("op", "")
         if op.startswith("l_"):
             rep.violation({"check": "trace-rejected", "proto": r["run_head"].get("p"), "op": op}, r)
+    ids = rt.compact_ids_inductive()
     rep.cov = {
+        "compact_field_id_channel_inductive": ids,
         "states": pst["distinct"], "transitions": pst["generated"],
         "traces_validated_against_impl": runs + wsum["walks"],
         "samples": [{"walk": {"id": wsample["id"], "steps": wsample["steps"][:4]}}],
